@@ -554,9 +554,9 @@ fn analyze(t: &Map, c: &mut Ctx, hwm: Option<&mut (usize, usize)>, valid_expecte
         let want_u = if st.total_capacity > 0 { alloc as f64 / st.total_capacity as f64 } else { 0.0 };
         let want_f = if alloc > 0 { free as f64 / (alloc + free) as f64 } else { 0.0 };
         if st.total_capacity < slots
-            || (st.utilization - want_u).abs() > 1e-9
-            || (util - want_u).abs() > 1e-9
-            || (st.fragmentation - want_f).abs() > 1e-9
+            || !((st.utilization - want_u).abs() <= 1e-9)      // written so that a NaN is a disagreement
+            || !((util - want_u).abs() <= 1e-9)
+            || !((st.fragmentation - want_f).abs() <= 1e-9)
         {
             e6.push(format!("{} arena stats ratios disagree with the slot counts", name));
         }
